@@ -3,6 +3,10 @@ ast.parse(transpile(src)) (Python's own parser) must equal `shape_program`, and
 `py_wf` must agree with compile()'s verdict, for every case."""
 from __future__ import annotations
 
+import warnings
+
+warnings.simplefilter("ignore")
+
 import ast
 
 from . import common as V
